@@ -22,6 +22,16 @@ CHECKS = {
             "wrapper on step() logs every attempt so that an accepted step whose Newton iteration failed is observed.",
             "Exploration over random smooth programs/shapes/dtypes/signs; the reference uses the same class tableau (coefficient "
             "correctness is C01's subject).", "4/C02"),
+    "C03": ("exploration", "runtime invariant monitor at the quiescent points of OdeSystem.integrate (per-call segment oracle, CLOCK component, sys.monitoring reach markers)",
+            "Every integrate() call of generated histories (spans of every sign pattern, dt larger/smaller than the span and of either sign, split and "
+            "reversed calls, runs outgrowing the 5000-row buffer with/without events and dense output, three dtypes) is checked at return for start, "
+            "strict monotonicity, no overshoot, landing within 64 eps, pairing via a clock component, finiteness, dtype and first row = y0.",
+            "Exploration; bounded progress (step budget) restates 'ends at the target'; dt below 64 ulp of the time scale is excluded as undecidable.", "4/C03"),
+    "C04": ("exploration", "runtime step-size monitor on recorded grids + metamorphic shift/reflection relations between paired executions",
+            "Fixed-step methods (set computed from is_adaptive) are run on spans of every sign pattern: all steps but the last equal dt to rounding, none "
+            "longer, implicit shortening only with a Newton failure logged by the step() wrapper; autonomous problems are re-run time-shifted and "
+            "time-reflected and compared row by row at rounding level (fixed step) / tolerance level (adaptive); bit-equality counts are reported.",
+            "Exploration; relation oracles need no exact solution. KF06-08 (non-adaptive implicit methods grow their step) are open known findings.", "4/C04"),
 }
 
 NOT_YET = {}
